@@ -1,7 +1,7 @@
 (* Props/C05.v -- coherent dedispersion: cold-plasma chirp, group delay, crop to valid times. *)
 From Coq Require Import ZArith QArith Qround Qminmax Reals.
 From Coquelicot Require Import Coquelicot.
-From PB Require Import Gen.GenConsts Model.Ledger Model.Band Model.Disp Proofs.LedgerProofs Proofs.DispProofs Proofs.ChirpR.
+From PB Require Import Gen.GenConsts Model.Ledger Model.Band Model.Disp Proofs.LedgerProofs Proofs.DispProofs Proofs.ChirpR Lib.Dft Lib.DftC Proofs.ChirpFilter.
 
 (* exact part, over Q *)
 Theorem C05_constant : (Kdisp == 1000000 # 241)%Q.
@@ -30,11 +30,35 @@ Theorem C05_group_delay : forall K DM f fr, f <> 0%R -> fr <> 0%R ->
 Proof. exact group_delay. Qed.
 Theorem C05_inverse_partial : forall K DM f fr, Cmult (chirpR K DM f fr) (chirpR K (- DM) f fr) = RtoC 1.
 Proof. exact chirp_inverse. Qed.
-(* partial: the cropped two-pass round trip on a compactly supported input and the filtering itself
-   (ifft(fft z * chirp)) rest on scipy.fft = DFT; they are checked numerically by the harness. *)
+(* the filtering itself, over the complex numbers, for EVERY length n >= 1, every input x and every assignment fbin of absolute
+   frequencies to the DFT bins of a channel (dedisp K DM fr x := IDFT (DFT x . chirp at fbin), the DFT of Lib/Dft.v):
+   bin k of the result is bin k of the input times the transfer function at fbin k; a tone comes out multiplied by the transfer
+   function at its own frequency (with C05_group_delay: advanced by its dispersion delay); the operation is linear; two passes
+   compose to the summed DM; DM then -DM (uncropped) returns every input sample *)
+Theorem C05_spectrum : forall (n : nat), (0 < n)%nat -> forall (fbin : nat -> R) K DM fr (x : nat -> C) (k : nat), (k < n)%nat ->
+  Cdft n (dedisp n fbin K DM fr x) k = Cmult (Cdft n x k) (chirpR K DM (fbin k) fr).
+Proof. exact dedisp_spectrum. Qed.
+Theorem C05_tone : forall (n : nat), (0 < n)%nat -> forall (fbin : nat -> R) K DM fr (k0 m : nat), (k0 < n)%nat ->
+  dedisp n fbin K DM fr (tone C (W n) k0) m = Cmult (chirpR K DM (fbin k0) fr) (tone C (W n) k0 m).
+Proof. exact dedisp_tone. Qed.
+Theorem C05_linear : forall (n : nat), (0 < n)%nat -> forall (fbin : nat -> R) K DM fr a x b y m,
+  dedisp n fbin K DM fr (fun j => Cplus (Cmult a (x j)) (Cmult b (y j))) m =
+  Cplus (Cmult a (dedisp n fbin K DM fr x m)) (Cmult b (dedisp n fbin K DM fr y m)).
+Proof. exact dedisp_linear. Qed.
+Theorem C05_compose : forall (n : nat), (0 < n)%nat -> forall (fbin : nat -> R) K DM1 DM2 fr x m,
+  dedisp n fbin K DM2 fr (dedisp n fbin K DM1 fr x) m = dedisp n fbin K (DM1 + DM2) fr x m.
+Proof. exact dedisp_compose. Qed.
+Theorem C05_roundtrip_uncropped : forall (n : nat), (0 < n)%nat -> forall (fbin : nat -> R) K DM fr x (m : nat), (m < n)%nat ->
+  dedisp n fbin K (- DM) fr (dedisp n fbin K DM fr x) m = x m.
+Proof. exact dedisp_roundtrip. Qed.
+(* partial: the CROPPED two-pass round trip on a compactly supported input (the crop between the passes drops part of the
+   filter's response) and scipy.fft = this DFT are checked numerically by the harness. *)
 
 Print Assumptions C05_crop_sound.
 Print Assumptions C05_delay_between.
 Print Assumptions C05_crop_ledger.
 Print Assumptions C05_group_delay.
 Print Assumptions C05_inverse_partial.
+Print Assumptions C05_spectrum.
+Print Assumptions C05_roundtrip_uncropped.
+Print Assumptions C05_compose.
